@@ -183,12 +183,18 @@ class QuadricTensor(ProjectiveTensor, ABC):
             p = -b[(*indices, slice(None), i)] / np.where(beta != 0, beta, -1)[..., None]
 
         else:
-            ind = np.indices((n, n))
-            ind = np.stack(
-                [np.delete(np.delete(ind, i, axis=1), i, axis=2) for i in combinations(range(n), n - 2)], axis=1
+            # the skew symmetric matrix s with rank(self + s) = 1 satisfies s_ab * s_cd = -minor(rows ab, columns cd):
+            # take the square root of one principal 2x2 minor and get the other entries with consistent signs from its column
+            pairs = np.array([sorted(set(range(n)) - set(c)) for c in combinations(range(n), n - 2)])
+            a, b = pairs[:, 0], pairs[:, 1]
+            arr = self.array
+            products = -(
+                arr[..., a[:, None], a[None, :]] * arr[..., b[:, None], b[None, :]]
+                - arr[..., a[:, None], b[None, :]] * arr[..., b[:, None], a[None, :]]
             )
-            minors = det(self.array[..., ind[0], ind[1]])
-            p = csqrt(-minors)  # type: ignore[arg-type]
+            k = np.argmax(np.abs(np.diagonal(products, axis1=-2, axis2=-1)), axis=-1)
+            beta = csqrt(products[(*indices, k, k)])
+            p = products[(*indices, slice(None), k)] / np.where(beta != 0, beta, 1)[..., None]
 
         # use the skew symmetric matrix m to get a matrix of rank 1 defining the same quadric
         m = hat_matrix(p)
